@@ -3,7 +3,7 @@
 From Coq Require Import List Arith Bool NArith Lia.
 From GV Require Import Base.Result Gen.TokenTypes Gen.Defs Model.Parser Spec.Layout Spec.LayoutSim
   Proofs.C18.StepParts Proofs.C18.Sim Proofs.C18.Detour Proofs.C18.Settled Proofs.C18.Invariant
-  Proofs.C18.InvStep Proofs.C18.Main Proofs.C18.Insert.
+  Proofs.C18.InvStep Proofs.C18.Final Proofs.C18.Trim Proofs.C18.Main Proofs.C18.Insert.
 Import ListNotations.
 
 (* trivia and dropped separators: from a settled state to a calm one *)
@@ -88,3 +88,79 @@ Corollary whitespace_repetition_always pre post k :
   opt_gtree_eqb (parse_tree (pre ++ [TT_Whitespace] ++ post))
                 (parse_tree (pre ++ repeat TT_Whitespace (S k) ++ post)) = true.
 Proof. intros Hp Hq. apply whitespace_repetition; [exact Hp|exact Hq|apply settled_always]. Qed.
+
+(* ---- no hypothesis on where the gap is: trivia at either end of the program is trimmed ---- *)
+Lemma trivia_is_trim t : is_trivia_tok t = true -> is_trim t = true.
+Proof. destruct t; try discriminate; reflexivity. Qed.
+
+Lemma trivia_no_sig d : forallb is_trivia_tok d = true -> has_sig d = false.
+Proof.
+  induction d as [|t r IH]; intros H; [reflexivity|].
+  cbn [forallb] in H. apply andb_true_iff in H. destruct H as [Ht Hr].
+  cbn [has_sig existsb]. rewrite (trivia_is_trim t Ht). cbn [negb orb]. apply IH, Hr.
+Qed.
+
+Lemma trivia_run_no_sig d : trivia_run d = true -> has_sig d = false.
+Proof. destruct d as [|t r]; [discriminate|]. apply trivia_no_sig. Qed.
+
+Lemma parse_tree_drop_front a s : has_sig a = false -> parse_tree (a ++ s) = parse_tree s.
+Proof.
+  intros Ha. pose proof (Trim.parse_tree_trim_ends a s [] Ha eq_refl) as H. rewrite app_nil_r in H. exact H.
+Qed.
+
+Lemma parse_tree_drop_back s b : has_sig b = false -> parse_tree (s ++ b) = parse_tree s.
+Proof. intros Hb. exact (Trim.parse_tree_trim_ends [] s b eq_refl Hb). Qed.
+
+Theorem trivia_runs_everywhere pre post d d' :
+  trivia_run d = true -> trivia_run d' = true -> has_ws d = has_ws d' ->
+  opt_gtree_eqb (parse_tree (pre ++ d ++ post)) (parse_tree (pre ++ d' ++ post)) = true.
+Proof.
+  intros Hd Hd' Hw.
+  destruct (has_sig pre) eqn:Hp; [destruct (has_sig post) eqn:Hq|].
+  - exact (trivia_runs_statement_holds pre post Hp Hq d d' Hd Hd' Hw).
+  - rewrite (parse_tree_drop_back pre (d ++ post)), (parse_tree_drop_back pre (d' ++ post)).
+    + apply Final.opt_gtree_eqb_refl.
+    + rewrite Trim.has_sig_app, (trivia_run_no_sig d' Hd'), Hq. reflexivity.
+    + rewrite Trim.has_sig_app, (trivia_run_no_sig d Hd), Hq. reflexivity.
+  - rewrite !app_assoc.
+    rewrite (parse_tree_drop_front (pre ++ d) post), (parse_tree_drop_front (pre ++ d') post).
+    + apply Final.opt_gtree_eqb_refl.
+    + rewrite Trim.has_sig_app, (trivia_run_no_sig d' Hd'), Hp. reflexivity.
+    + rewrite Trim.has_sig_app, (trivia_run_no_sig d Hd), Hp. reflexivity.
+Qed.
+
+Theorem annotation_insert_everywhere pre post a t :
+  is_annotation_tok a = true ->
+  parse_tree (pre ++ post) = Some t -> parse_tree (pre ++ [a] ++ post) = Some t.
+Proof.
+  intros Ha. destruct (annot_sec a Ha) as (_ & Hta & _).
+  assert (Hna : has_sig [a] = false) by (apply trivia_no_sig; cbn [forallb]; rewrite Hta; reflexivity).
+  destruct (has_sig pre) eqn:Hp; [destruct (has_sig post) eqn:Hq|].
+  - exact (annotation_insert_always pre post a t Hp Hq Ha).
+  - rewrite (parse_tree_drop_back pre post Hq), (parse_tree_drop_back pre ([a] ++ post)); [auto|].
+    rewrite Trim.has_sig_app, Hna, Hq. reflexivity.
+  - rewrite (parse_tree_drop_front pre post Hp), app_assoc, (parse_tree_drop_front (pre ++ [a]) post); [auto|].
+    rewrite Trim.has_sig_app, Hna, Hp. reflexivity.
+Qed.
+
+Corollary annotation_next_to_whitespace_everywhere pre post a :
+  is_annotation_tok a = true ->
+  opt_gtree_eqb (parse_tree (pre ++ [TT_Whitespace] ++ post))
+                (parse_tree (pre ++ [TT_Whitespace; a; TT_Whitespace] ++ post)) = true /\
+  opt_gtree_eqb (parse_tree (pre ++ [TT_Whitespace] ++ post))
+                (parse_tree (pre ++ [a; TT_Whitespace] ++ post)) = true /\
+  opt_gtree_eqb (parse_tree (pre ++ [TT_Whitespace] ++ post))
+                (parse_tree (pre ++ [TT_Whitespace; a] ++ post)) = true.
+Proof.
+  intros Ha. destruct (annot_is_trivia a Ha) as [Ht Hw].
+  repeat split; apply trivia_runs_everywhere; try reflexivity;
+    cbn [trivia_run forallb has_ws existsb]; rewrite ?Ht, ?Hw; reflexivity.
+Qed.
+
+Corollary whitespace_repetition_everywhere pre post k :
+  opt_gtree_eqb (parse_tree (pre ++ [TT_Whitespace] ++ post))
+                (parse_tree (pre ++ repeat TT_Whitespace (S k) ++ post)) = true.
+Proof.
+  apply trivia_runs_everywhere; try reflexivity.
+  cbn [repeat trivia_run forallb]. induction k as [|k IH]; [reflexivity|exact IH].
+Qed.
